@@ -464,6 +464,53 @@ def runCalls (aliasing : Bool) : KWHeap → List (PFn × KW) → KWHeap
 /-- effective value of every key of `keys` (what the emitted ModelProto shows) -/
 def effective (kw : KW) (keys : List String) : List (Option Val) := keys.map (fun k => kw.lookup k)
 
+/-! ## 6c. `_to_model_proto`: opset imports and ir_version of the emitted model -/
+
+/-- a called `OnnxFunction` as the header computation sees it -/
+structure SubFn where
+  domain : String
+  /-- `func.meta["opset_version"]` (version of the function's own domain) -/
+  opsetVersion : Nat
+  /-- `func.opset_imports.get("")` -/
+  stdImport : Option Nat
+  deriving DecidableEq, Repr
+
+def hasKey (imps : List (String × Nat)) (d : String) : Bool := (imps.lookup d).isSome
+
+def addDomain (imps : List (String × Nat)) (f : SubFn) : List (String × Nat) :=
+  if hasKey imps f.domain then imps else imps ++ [(f.domain, f.opsetVersion)]
+
+def addStd (imps : List (String × Nat)) (f : SubFn) : List (String × Nat) :=
+  match f.stdImport with
+  | some v => if hasKey imps "" then imps else imps ++ [("", v)]
+  | none => imps
+
+/-- the loop over the called functions: a domain not yet imported is appended with the function's
+version; if the standard domain is still missing and the function imports it, that version is taken -/
+def addFuncImports : List (String × Nat) → List SubFn → List (String × Nat)
+  | imps, [] => imps
+  | imps, f :: fs => addFuncImports (addStd (addDomain imps f) f) fs
+
+/-- `OnnxFunction._to_model_proto`: opset imports of the model (in `opset_import` order). -/
+def modelOpsetImports (graphImports : List (String × Nat)) (funcs : List SubFn)
+    (opsetVersionKw : Option Nat) (latest : Nat) : List (String × Nat) :=
+  let i := addFuncImports graphImports funcs
+  if hasKey i "" then i else i ++ [("", opsetVersionKw.getD latest)]
+
+/-- `values.select_ir_version` over `onnx.helper.OP_SET_ID_VERSION_MAP` restricted to `ai.onnx` -/
+def selectIr (table : List (Nat × Nat)) (maxIr : Nat) (opset : Nat) : Nat :=
+  match table.lookup opset with
+  | some v => max v 10
+  | none => maxIr
+
+/-- (opset imports, ir_version) of `f.to_model_proto(opset_version=…, ir_version=…)` -/
+def modelHeader (graphImports : List (String × Nat)) (funcs : List SubFn) (opsetVersionKw irKw : Option Nat)
+    (latest : Nat) (table : List (Nat × Nat)) (maxIr : Nat) : List (String × Nat) × Nat :=
+  let imps := modelOpsetImports graphImports funcs opsetVersionKw latest
+  (imps, match irKw with
+    | some v => v
+    | none => selectIr table maxIr ((imps.lookup "").getD latest))
+
 /-! ## 7. Converter object reuse (internal API) -/
 
 /-- `Converter` per-function state: the generated table lists the fields assigned in `__init__` under
